@@ -182,6 +182,10 @@ func (c *Conn) Write(p []byte) (int, error) {
 	n := c.writeN
 	c.writeN++
 	c.mu.Unlock()
+	if c.w.OverBudget() {
+		c.w.Count("fate_budget", 1)
+		return len(p), nil
+	}
 	cp := append([]byte(nil), p...)
 	delay := time.Millisecond
 	fate := "deliver"
